@@ -604,6 +604,7 @@ def run(chk):
             analyse_loop(chk, prog, cfg, b, facts[cfg])
         shared.nothing_after_body(chk, prog, "R8.nothing_after_body", cfg=cfg)
         c02.reads(chk, prog, cfg)
+        shared.eof_is_error(chk, prog, "R2.eof_is_error", r"^humphrey::http::request::Request::from_stream_inner(::\{closure#0\})?$", "request head", cfg=cfg)
         if cfg == "A":
             timeout_table(chk, prog)
             # "a panicking handler costs only its own connection" (threaded runtime): the pool's isolation rules of C08
